@@ -16,7 +16,8 @@ RULE = (
     "simplex incl. zeros/dominant) for an olivine and/or enstatite mineral; assemblage "
     "[ol], [en], [ol,en], [en,ol] with the minerals handed over in either order; phase "
     "fractions k/1000; default or custom positive-definite orthorhombic/triclinic "
-    "stiffness matrices; a frame rotation Q. Malformed cases: unequal grain counts, "
+    "stiffness matrices in units from 1e-12 to 1e12 of the GPa values; the minerals and the "
+    "stiffness record must come back unmodified; a frame rotation Q. Malformed cases: unequal grain counts, "
     "unequal snapshot counts between minerals or between orientations and fractions. "
     "Non-trivial: >=2 grains with a non-aligned texture, or an assemblage/mineral order "
     "other than (olivine, enstatite); distinct = distinct canonical JSON."
@@ -44,7 +45,7 @@ def stiffness_spec():
                 "ol": st.lists(st.floats(0.0, 1.0), min_size=21, max_size=21),
                 "en": st.lists(st.floats(0.0, 1.0), min_size=21, max_size=21),
                 "tric": st.booleans(),
-                "unit": st.sampled_from([1.0, 1.0, 1e9, 1e-2, 1e3, 1e-12, 1e12]),  # GPa, Pa, Mbar, MPa, far-out
+                "unit": st.sampled_from([1.0, 1.0, 1e9, 1e-2, 1e3, 1e-12, 1e12, "whole"]),  # GPa, Pa, Mbar, MPa, far-out, whole GPa as integers
             }
         ),
     )
@@ -70,10 +71,15 @@ def _make_stiffness(u, tric):
     return m
 
 
+def _unit(m, spec):
+    u = spec.get("unit", 1.0)
+    return np.round(m).astype(np.int64) if u == "whole" else m * u
+
+
 def tensors(spec):
     if spec["k"] == "default":
         return _minerals.StiffnessTensors()
-    return _minerals.StiffnessTensors(olivine=_make_stiffness(spec["ol"], spec["tric"]) * spec.get("unit", 1.0), enstatite=_make_stiffness(spec["en"], spec["tric"]) * spec.get("unit", 1.0))
+    return _minerals.StiffnessTensors(olivine=_unit(_make_stiffness(spec["ol"], spec["tric"]), spec), enstatite=_unit(_make_stiffness(spec["en"], spec["tric"]), spec))
 
 
 def voigt_case():
@@ -286,8 +292,8 @@ def check_stiffness_mutation(case):
     worst = 0.0
     for k, spec in enumerate([{"k": "default"}] + case["muts"]):
         if spec["k"] == "custom":
-            st_obj.olivine = _make_stiffness(spec["ol"], spec["tric"]) * spec.get("unit", 1.0)
-            st_obj.enstatite = _make_stiffness(spec["en"], spec["tric"]) * spec.get("unit", 1.0)
+            st_obj.olivine = _unit(_make_stiffness(spec["ol"], spec["tric"]), spec)
+            st_obj.enstatite = _unit(_make_stiffness(spec["en"], spec["tric"]), spec)
         C = {"ol": np.asarray(st_obj.olivine), "en": np.asarray(st_obj.enstatite)}
         scale = max(np.abs(C["ol"]).max(), np.abs(C["en"]).max())
         out = sut(pydrex.voigt_averages, mlist, assemblage, list(phi), st_obj)
